@@ -298,7 +298,6 @@ class Prog:
         st = self.stmt
         k = st[0]
         if k == "const":
-            v = self.byvar[st[1]]
             self.set(st[1], 1 if self.isbit(st[1]) == 1 else 5)
         elif k == "zero":
             self.set(st[1], 0)
@@ -607,7 +606,6 @@ def statements(shape, quick):
         sources.append(("m", 0))
     if insts and subcls[insts[0]]:
         sources.append(("s", 0, 0))
-    kinds = {"main": main, "sub": subcls}
     out = []
 
     def fmt_of(path):
